@@ -54,6 +54,9 @@ def check_markup(engine, s, ids):
         if t[0] == "empty" and t[1] in ("mark", "bookmark"):
             m = re.search(r"""=(?:'([^']*)'|"([^"]*)")""", t[2])
             bid = (m.group(1) or m.group(2) or "") if m else ""
+            if re.search(r"[<>]|&(?!(?:amp|lt|gt|apos|quot);)", bid):
+                return f"bookmark attribute value '{bid}' holds an unescaped markup character"
+            bid = bid.replace("&lt;", "<").replace("&gt;", ">").replace("&apos;", "'").replace("&quot;", '"').replace("&amp;", "&")      # what an XML reader hands to the engine
             if bid not in ids:
                 return f"bookmark names '{bid}', which is not an id of the expression"
     if st:
@@ -76,7 +79,11 @@ def exprs(rng, n):
          mml.math(mml.el("mfrac", mml.mrow(mml.mi("X"), mml.mo("+"), mml.mn("1.5")), mml.el("msqrt", mml.mi("Y")))),
          mml.math(mml.mrow(mml.mi("sin"), mml.mo("⁡"), mml.mi("Θ"), mml.mo("+"), mml.el("msup", mml.mi("e"), mml.mrow(mml.mi("i"), mml.mi("π"))))),
          mml.math(mml.mrow(mml.mi("Na"), mml.mi("Cl"), mml.mo("+"), mml.el("msub", mml.mi("H"), mml.mn("2")), mml.mi("O"))),
-         mml.math(mml.mrow(mml.mi("x", intent="foo"), mml.mo("+"), mml.mi("y")))]
+         mml.math(mml.mrow(mml.mi("x", intent="foo"), mml.mo("+"), mml.mi("y"))),
+         # author ids with quotes and markup characters (they are written into <mark name=...>), signed roots (the rule bookmarks the parent)
+         mml.math(mml.mrow(mml.mi("x", id="a'b<c&d"), mml.mo("+", id='p"q'), mml.mn("1", id="n>1"), mml.mo("-"), mml.mi("B", id="''"))),
+         mml.math(mml.mrow(mml.mo("-"), mml.el("mroot", mml.mi("x"), mml.mn("3")), mml.mo("+"), mml.mrow(mml.mo("-"), mml.el("msqrt", mml.mi("y"))))),
+         mml.math(mml.mrow(mml.mo("+"), mml.el("msqrt", mml.mrow(mml.mi("a"), mml.mo("+"), mml.mn("2")))))]
     return A + mml.corpus_basic() + [mml.math(mml.gen_expr(rng, rng.randrange(1, 4))) for _ in range(n)]
 
 
@@ -112,7 +119,8 @@ def run(ctx):
                      "CapitalLetters_Pitch": rng.choice(["0", "30", "-15", "1", "-1", "0.4", "100", "-60"]), "CapitalLetters_Beep": rng.choice(["true", "false"]),
                      "CapitalLetters_UseWord": rng.choice(["true", "false"]), "Bookmark": rng.choice(["true", "false"]),
                      "Verbosity": rng.choice(["Terse", "Medium", "Verbose"]), "SpeechStyle": rng.choice(["ClearSpeak", "SimpleSpeak"]),
-                     "Language": rng.choice(["en", "en", "de", "fr", "es"])})
+                     "ClearSpeak_Roots": rng.choice(["Auto", "PosNegSqRoot", "PosNegSqRootEnd", "RootEnd"]),
+                     "Language": rng.choice(["en", "en", "de", "fr", "es", "sv", "fi", "id", "vi"])})
     for cfg in cfgs:
         pre = [{"op": "session"}, {"op": "rules_dir", "dir": core.rules_dir()}] + [{"op": "set_pref", "name": k, "value": v} for k, v in cfg.items()]
         reqs = list(pre)
